@@ -31,6 +31,8 @@ def cell_target(kind):
         return dict(T.spec_vonmises(d=2, kappa=3.0, m=0.03), kind="vonmises"), dict(periodic=[0])
     if kind == "hole":
         return dict(T.spec_hole(d=2, f=0.5, mu=0.2, sig=0.15), kind="hole"), {}
+    if kind.startswith("hole:"):  # "hole:<f>": zero likelihood on a prior mass 1-f
+        return dict(T.spec_hole(d=2, f=float(kind.split(":")[1]), mu=0.1, sig=0.15), kind="hole"), {}
     raise ValueError(kind)
 
 
@@ -39,12 +41,17 @@ def make_run_case(cell, N, rep, seed):
     cfg = dict(n_particles=N, sample=cell["kernel"], resample=cell["resample"], clustering=cell["clustering"], random_state=None)
     if cell.get("vv"):
         cfg["volume_variation"] = cell["vv"]
+    if cell.get("ess_ratio"):
+        cfg["ess_ratio"] = cell["ess_ratio"]
     cfg.update(bcfg)
     case = dict(kind="run", cell=cell, N=N, rep=rep, seed=seed, target=tgt, cfg=cfg, n_total=8 * N, scenario="plain", eval="scalar")
     arm = cell.get("arm", "faultfree")
     r = random.Random(seed)
     if arm == "crash_resume":
         case.update(scenario="crash_resume", save_every=2, like_fault=dict(kind="crash.process", batch=r.randrange(4, 30)))
+    elif arm == "warm_reconfig":
+        # the process dies during the prior-sampling phase; the resumed sampler uses another batch size (unequal batches in one history)
+        case.update(scenario="crash_resume", save_every=1, like_fault=dict(kind="crash.process", batch=r.randrange(2, 4)), reconfig=dict(n_particles=N * r.choice([2, 3])))
     elif arm == "pool":
         case.update(eval="pool", pool=dict(workers=r.choice([2, 3, 7])))
     elif arm == "vector":
